@@ -330,9 +330,9 @@ def run(ctx):
         for i in rng.sample(range(4 ** 9), 8000):
             jobs.append(f_job(window(i, 4), i))
     else:
-        for i in rng.sample(range(3 ** 9), 1500):
+        for i in rng.sample(range(3 ** 9), 1000):
             jobs.append(f_job(window(i, 3), i))
-        for i in rng.sample(range(4 ** 9), 1500):
+        for i in rng.sample(range(4 ** 9), 1000):
             jobs.append(f_job(window(i, 4), i))
     groups.append(("windows_3x3", jobs, ctx.pick(2, 4)))
 
@@ -402,7 +402,7 @@ def run(ctx):
                 "alt": rng.choice([rng.randint(0, 90), 0, 90, 30.5]),
                 "layout": rng.choice(LAYOUTS), "dims": rng.choice(DIMS)}
 
-    jobs = [base("G", rng.choice(["float", "int"])) for _ in range(ctx.pick(200, 1500))]
+    jobs = [base("G", rng.choice(["float", "int"])) for _ in range(ctx.pick(150, 1500))]
     for (H, W) in [(2, 4), (4, 2), (2, 2), (3, 3), (2, 7)] * ctx.pick(2, 10):      # rasters that are all border
         j = base("G", "float")
         j["H"], j["W"], j["vals"] = H, W, rand_raster(rng, H, W, "float")
@@ -411,7 +411,7 @@ def run(ctx):
     groups.append(("general_rasters", jobs, ctx.pick(1, 4)))
 
     jobs = []
-    for _ in range(ctx.pick(300, 2500)):
+    for _ in range(ctx.pick(220, 2500)):
         j = base("P", rng.choice(["float", "int", "rot"]))
         j["p"] = [rng.randrange(j["H"]), rng.randrange(j["W"])]
         old = j["vals"][j["p"][0]][j["p"][1]]
@@ -442,7 +442,7 @@ def run(ctx):
 
     jobs = [base("S", rng.choice(["float", "int"])) for _ in range(ctx.pick(60, 500))]
     groups.append(("summarize_terrain", jobs, 1))
-    observe(ctx, groups, nproc=ctx.pick(6, 16))
+    observe(ctx, groups, nproc=ctx.pick(6, 10))
 
 META = {
     "technique": "TLA+ transcription of the four 3x3 kernels with exact integer/rational arithmetic; TLC visits every "
